@@ -150,7 +150,9 @@ where
                         }
                         let buf = buf.try_into_io_slice_mut().unwrap().into_io_slice();
                         let slice = buf.slice(..bits::align_up(PAGE, info.addr.len as usize));
-                        let flusher = flushers[picked_count % flushers.len()].clone();
+                        // Use the flusher that serves this hash, as inserts and deletes do, so that the reinsertion is
+                        // ordered with later updates and deletes of the same entry.
+                        let flusher = flushers[info.hash as usize % flushers.len()].clone();
                         flusher.submit(Submission::Reinsertion {
                             reinsertion: Reinsertion {
                                 hash: info.hash,
